@@ -296,10 +296,19 @@ func (r *Redirect) Back(fallback ...string) error {
 // parseAndClearFlashMessages is a method to get flash messages before they are getting removed
 func (r *Redirect) parseAndClearFlashMessages() {
 	// parse flash messages
-	cookieValue := r.c.Cookies(FlashCookieName)
+	cookieValue := r.c.app.getBytes(r.c.Cookies(FlashCookieName))
 
-	_, err := r.c.flashMessages.UnmarshalMsg(r.c.app.getBytes(cookieValue))
-	if err != nil {
+	// The pooled slice may still hold messages of an earlier request beyond its length:
+	// decoding fills only the fields present in the cookie, so start from zeroed slots.
+	stale := r.c.flashMessages[:cap(r.c.flashMessages)]
+	for i := range stale {
+		stale[i] = redirectionMsg{}
+	}
+	r.c.flashMessages = r.c.flashMessages[:0]
+
+	if _, err := r.c.flashMessages.UnmarshalMsg(cookieValue); err != nil {
+		// not a well-formed encoding: no messages at all
+		r.c.flashMessages = r.c.flashMessages[:0]
 		return
 	}
 }
